@@ -26,7 +26,7 @@ class C12(Check):
             "successfully written.  non-trivial = a sequence with at least one error or >= 2 entries; distinct = distinct "
             "outcome vector")
     trusted = ["tools/strictzip.py as independent validator"]
-    assumptions = ["the experimental encryption option is exercised only with start_file + write (outside that the crate documents a panic)"]
+    assumptions = []
 
     def alphabet(self, src):
         A = []
@@ -43,6 +43,11 @@ class C12(Check):
         A.append(("extra", b"e", Opts(method=93, large=True)))
         for al in (0, 4, 64):
             A.append(("aligned", b"al", Opts(method=0), al))
+        # the ZipCrypto option on every kind of entry (D21: extra data / alignment used to panic with it)
+        A.append(("file", b"enc", Opts(method=0, pw=b"pw")))
+        A.append(("extra", b"ence", Opts(method=8, pw=b"pw")))
+        A.append(("aligned", b"enca", Opts(method=0, pw=b"pw"), 64))
+        A.append(("dir", b"encd", Opts(pw=b"pw")))
         for c in (b"", b"xyz", GOOD_EXTRA, BAD_EXTRAS[0], BAD_EXTRAS[3]):
             A.append(("write", c))
         A += [("endlocal",), ("endextra",), ("dir", b"d", Opts()), ("symlink", b"l", b"t", Opts()), ("comment", b"cm"),
@@ -157,7 +162,7 @@ class C12(Check):
                 if ok:
                     finished = True
                     data = bytes.fromhex(res[1][1:])
-                    listing, problems = strictzip.validate(data)
+                    listing, problems = strictzip.validate(data, {i: b"pw" for i in range(len(entries) + 2)}, lambda pw, pay: genzip.ZipCrypto(pw).decrypt(pay))
                     if problems:
                         return "finish() succeeded but the archive is not valid: " + "; ".join(problems[:3])
                     got = [(e["name"], e["content"]) for e in listing["entries"]]
